@@ -204,4 +204,15 @@ struct Heap {
 // memfd-backed file descriptors for FdReader / FdWriter (no pipe capacity limits)
 inline int make_memfd() { return memfd_create("nopv", 0); }
 
+// Deterministic short reads: read(2) on the designated descriptor hands over at most a few bytes
+// per call, as a pipe or socket fed in pieces does (a reader that assumes a full transfer shows).
+inline int& short_read_fd() { static int fd = -1; return fd; }
+inline unsigned& short_read_tick() { static unsigned t = 0; return t; }
+
 }  // namespace nopv
+
+#include <sys/syscall.h>
+extern "C" inline ssize_t read(int fd, void* buf, size_t n) {
+  if (fd >= 0 && fd == nopv::short_read_fd() && n > 1) n = 1 + (nopv::short_read_tick()++ % 3);
+  return syscall(SYS_read, fd, buf, n);
+}
